@@ -1,11 +1,13 @@
 (* Properties/C10.v — Packed object/element/feature ids are lossless, ordered and parseable.
 
+   Print Assumptions is issued once, at the end, on the tuple of ALL theorems of the file (one traversal of the shared dependencies instead of one per theorem: the file
+   compiles in a few seconds instead of thirty).
    ONLY statements, each closed by [exact] of a lemma of C10/Proofs.v, and Print Assumptions.
    The constructors and decoders mentioned here (module VerifGen.GenIds) are regenerated from
    /repo's Go source on every run by translator/cmd/ids; the String/Parse model is tied by
    correspondence (harness/cmd/c10). *)
-From Coq Require Import ZArith List String Sorted Permutation Lia.
-From Verif Require Import Base.Int64 C10.Model C10.Proofs.
+From Coq Require Import ZArith List String Sorted Permutation Lia Bool.
+From Verif Require Import Base.Int64 C10.Model C10.Proofs C10.Conv C10.OutOfRange C10.ParseComplete.
 From VerifGen Require Import GenIds.
 Import ListNotations.
 Open Scope Z_scope.
@@ -16,22 +18,18 @@ Open Scope Z_scope.
 Theorem C10_object_id_layout : forall k r v,
   in_range r v -> object_id k r v = pack k (norm_r k r) (norm_v k v).
 Proof. exact object_id_pack. Qed.
-Print Assumptions C10_object_id_layout.
 
 Theorem C10_element_id_layout : forall k r v,
   is_element k = true -> in_range r v ->
   element_id k r v = pack k r v /\ object_id k r v = element_id k r v.
 Proof. intros k r v Hk H. split; [exact (element_id_pack k r v Hk H)|exact (object_id_is_element_id k r v Hk)]. Qed.
-Print Assumptions C10_element_id_layout.
 
 Theorem C10_feature_id_layout : forall k r,
   is_element k = true -> 0 <= r < two40 -> feature_id k r = pack k r 0.
 Proof. exact feature_id_pack. Qed.
-Print Assumptions C10_feature_id_layout.
 
 Theorem C10_no_wrap : forall k r v, in_range r v -> 0 <= pack k r v < two63.
 Proof. exact pack_range. Qed.
-Print Assumptions C10_no_wrap.
 
 (* 2. lossless: the decoders return exactly kind, ref and version *)
 Theorem C10_decode_object : forall k r v, in_range r v ->
@@ -42,7 +40,6 @@ Proof.
   pose proof (norm_in_range k r v H) as Hn.
   split; [exact (object_type_pack _ _ _ Hn)|split; [exact (ref_pack _ _ _ Hn)|exact (version_pack _ _ _ Hn)]].
 Qed.
-Print Assumptions C10_decode_object.
 
 Theorem C10_decode_element : forall k r v, is_element k = true -> in_range r v ->
   let id := element_id k r v in
@@ -61,7 +58,6 @@ Proof.
   - exact (feature_type_pack _ _ _ Hk H0).
   - exact (ref_pack _ _ _ H0).
 Qed.
-Print Assumptions C10_decode_element.
 
 Theorem C10_kind_names_distinct : forall a b, kind_name a = kind_name b -> a = b.
 Proof. exact kind_name_inj. Qed.
@@ -70,13 +66,11 @@ Proof. exact kind_name_inj. Qed.
 Theorem C10_injective : forall a b,
   in_range3 a -> in_range3 b -> pack3 a = pack3 b -> a = b.
 Proof. exact pack_inj. Qed.
-Print Assumptions C10_injective.
 
 (* 4. integer order = (kind, ref, version) order, bounds < node < way < relation < ... *)
 Theorem C10_order : forall a b,
   in_range3 a -> in_range3 b -> (pack3 a < pack3 b <-> lex_lt a b).
 Proof. exact pack_lt_iff. Qed.
-Print Assumptions C10_order.
 
 Example C10_node_way_relation : rank KNode < rank KWay < rank KRelation.
 Proof. cbn. lia. Qed.
@@ -86,28 +80,23 @@ Proof. cbn. lia. Qed.
 Theorem C10_sorted_is_lex_sorted : forall l,
   Forall in_range3 l -> StronglySorted Z.le (map pack3 l) -> StronglySorted lex_le l.
 Proof. exact sorted_pack_lex. Qed.
-Print Assumptions C10_sorted_is_lex_sorted.
 
 Theorem C10_sort_result_unique : forall l1 l2 : list Z,
   Permutation l1 l2 -> StronglySorted Z.le l1 -> StronglySorted Z.le l2 -> l1 = l2.
 Proof. exact sorted_perm_unique. Qed.
-Print Assumptions C10_sort_result_unique.
 
 (* 6. text round trip *)
 Theorem C10_parse_object_string : forall k r v, in_range r v ->
   parse_object_id (object_id_string (object_id k r v)) = Some (object_id k r v).
 Proof. exact parse_object_string. Qed.
-Print Assumptions C10_parse_object_string.
 
 Theorem C10_parse_element_string : forall k r v, is_element k = true -> in_range r v ->
   parse_element_id (element_id_string (element_id k r v)) = Some (element_id k r v).
 Proof. exact parse_element_string. Qed.
-Print Assumptions C10_parse_element_string.
 
 Theorem C10_parse_feature_string : forall k r, is_element k = true -> 0 <= r < two40 ->
   parse_feature_id (feature_id_string (feature_id k r)) = Some (feature_id k r).
 Proof. exact parse_feature_string. Qed.
-Print Assumptions C10_parse_feature_string.
 
 (* 7. rejection: whatever the parsers accept has the kind/ref[:version] shape with a known
       kind (an element kind for element and feature ids); everything else is an error. *)
@@ -116,21 +105,212 @@ Proof.
   intros s H. destruct (parse_object_id s) eqn:E; [|reflexivity].
   exfalso. apply H. eapply parse_object_id_shape; exact E.
 Qed.
-Print Assumptions C10_parse_object_rejects.
 
 Theorem C10_parse_element_rejects : forall s, ~ has_shape true true s -> parse_element_id s = None.
 Proof.
   intros s H. destruct (parse_element_id s) eqn:E; [|reflexivity].
   exfalso. apply H. eapply parse_element_id_shape; exact E.
 Qed.
-Print Assumptions C10_parse_element_rejects.
 
 Theorem C10_parse_feature_rejects : forall s, ~ has_shape true false s -> parse_feature_id s = None.
 Proof.
   intros s H. destruct (parse_feature_id s) eqn:E; [|reflexivity].
   exfalso. apply H. eapply parse_feature_id_shape; exact E.
 Qed.
-Print Assumptions C10_parse_feature_rejects.
+
+(* 8. the panicking conversions FeatureID/ElementID .NodeID() .WayID() .RelationID()
+      (generated as partial functions, None = panic): on the packed id of ANY of the seven kinds
+      the conversion to element kind K returns the reference exactly when the id IS of kind K
+      and panics otherwise.  So an identifier never decodes as another kind through them.
+      (Before fix 8da90bd in /repo the guard was a subset test and relation ids converted to
+      nodes and ways: C10_old_subset_guard_refuted records the witness.) *)
+Theorem C10_conv_feature : forall K k r v,
+  is_element K = true -> in_range r v ->
+  conv_feature K (pack k r v) = if kind_eqb K k then Some r else None.
+Proof. exact conv_feature_pack. Qed.
+
+Theorem C10_conv_element : forall K k r v,
+  is_element K = true -> in_range r v ->
+  conv_element K (pack k r v) = if kind_eqb K k then Some r else None.
+Proof. exact conv_element_pack. Qed.
+
+Theorem C10_conv_of_constructors : forall K k r v,
+  is_element K = true -> is_element k = true -> in_range r v ->
+  conv_feature K (feature_id k r) = (if kind_eqb K k then Some r else None) /\
+  conv_element K (element_id k r v) = (if kind_eqb K k then Some r else None).
+Proof.
+  intros K k r v HK Hk H. split.
+  - exact (conv_feature_id K k r HK Hk (proj1 H)).
+  - exact (conv_element_id K k r v HK Hk H).
+Qed.
+
+Theorem C10_old_subset_guard_refuted :
+  exists r, old_guard_passes c_nodeMask (pack KRelation r 0) = true
+            /\ old_guard_passes c_wayMask (pack KRelation r 0) = true
+            /\ ObjectID_Ref (pack KRelation r 0) = r.
+Proof. exact old_subset_guard_refuted. Qed.
+
+(* 9. Type.objectID / Type.FeatureID on ARBITRARY type strings, ids of way nodes and members *)
+Theorem C10_type_objectID : forall t r v,
+  Type_objectID t r v = match kind_of_name t with Some k => Some (object_id k r v) | None => None end.
+Proof. exact type_objectID_spec. Qed.
+
+Theorem C10_type_featureID : forall t r,
+  Type_FeatureID t r =
+  match kind_of_name t with
+  | Some k => if is_element k then Some (feature_id k r) else None
+  | None => None
+  end.
+Proof. exact type_featureID_spec. Qed.
+
+Theorem C10_kind_of_name : forall t k, kind_of_name t = Some k <-> t = kind_name k.
+Proof. exact kind_of_name_spec. Qed.
+
+Theorem C10_way_node_ids : forall id ver, in_range id ver ->
+  way_node_feature_id id = pack KNode id 0 /\ way_node_element_id id ver = pack KNode id ver.
+Proof. exact way_node_ids. Qed.
+
+Theorem C10_member_ids : forall k r v, is_element k = true -> in_range r v ->
+  member_feature_id (kind_name k) r = Some (pack k r 0) /\
+  member_element_id (kind_name k) r v = Some (pack k r v).
+Proof. exact member_ids. Qed.
+
+Theorem C10_member_ids_panic : forall typ ref ver,
+  (forall k, is_element k = true -> typ <> kind_name k) ->
+  member_feature_id typ ref = None /\ member_element_id typ ref ver = None.
+Proof. exact member_ids_panic. Qed.
+
+(* 10. Counts and the id lists *)
+Theorem C10_element_ids_counts : forall l, Forall in_range3 l ->
+  element_ids_counts (map pack3 l) = (count_kind KNode l, count_kind KWay l, count_kind KRelation l).
+Proof. exact element_ids_counts_spec. Qed.
+
+Theorem C10_feature_ids_counts : forall l, Forall in_range3 l ->
+  feature_ids_counts (map pack3 l) = (count_kind KNode l, count_kind KWay l, count_kind KRelation l).
+Proof. exact feature_ids_counts_spec. Qed.
+
+Theorem C10_counts_total : forall l,
+  Forall (fun t => is_element (fst (fst t)) = true) l ->
+  count_kind KNode l + count_kind KWay l + count_kind KRelation l = Z.of_nat (List.length l).
+Proof. exact counts_total. Qed.
+
+Theorem C10_elements_id_lists : forall l,
+  Forall in_range3 l -> Forall (fun t => is_element (fst (fst t)) = true) l ->
+  elements_element_ids l = map pack3 l /\
+  elements_feature_ids l = map (fun '(k, r, v) => pack k r 0) l.
+Proof.
+  intros l H1 H2. split; [exact (elements_element_ids_spec l H1 H2)|exact (elements_feature_ids_spec l H1 H2)].
+Qed.
+
+Theorem C10_objects_id_list : forall l, Forall in_range3 l ->
+  objects_object_ids l = map (fun '(k, r, v) => pack k (norm_r k r) (norm_v k v)) l.
+Proof. exact objects_object_ids_spec. Qed.
+
+(* 11. OUTSIDE the domain of the property (no guarantee of the library; what the code does):
+       for every int64 reference r and every version v, for the element kinds *)
+Theorem C10_any_ref_reads_back_mod_2_40 : forall k r,
+  is_element k = true -> FeatureID_Ref (feature_id k r) = r mod two40.
+Proof. exact feature_ref_any. Qed.
+
+Theorem C10_any_ref_clobbers_type_bits : forall k r,
+  is_element k = true ->
+  Z.land (feature_id k r) c_typeMask = Z.lor (kcode k) ((r / two40) mod 128) * two56.
+Proof. exact feature_type_bits_any. Qed.
+
+Theorem C10_any_ref_sign : forall k r,
+  is_element k = true -> Z.testbit (feature_id k r) 63 = Z.testbit r 47.
+Proof. exact feature_sign_any. Qed.
+
+Theorem C10_any_version_reads_back_mod_2_16 : forall k r v,
+  is_element k = true -> ElementID_Version (element_id k r v) = v mod two16.
+Proof. exact element_version_any. Qed.
+
+Theorem C10_negative_ref : forall k r,
+  is_element k = true -> - two40 <= r < 0 ->
+  FeatureID_Ref (feature_id k r) = r + two40 /\ FeatureID_Type (feature_id k r) = ""%string.
+Proof. exact negative_ref. Qed.
+
+Theorem C10_large_refs_collide :
+  feature_id KNode (2 ^ 45) = feature_id KRelation 0 /\
+  feature_id KNode (2 ^ 44 + 7) = feature_id KNode 7 /\
+  FeatureID_Type (feature_id KNode (2 ^ 40)) = ""%string /\
+  feature_id KNode (2 ^ 48 + 7) = feature_id KNode 7 /\
+  feature_id KWay (2 ^ 47) < 0.
+Proof. exact ref_collisions. Qed.
+
+(* 12. the parsers, completely: closed formulas for EVERY string.  [shapeb] decides the
+       kind/ref[:version] shape on the text alone, [denoted] reads kind, reference and version
+       off the text (decimal value by Horner's rule).  Accepted iff shape and numbers within
+       int64; the result is the constructor applied to what the text denotes. *)
+Theorem C10_parse_int64_complete : forall s,
+  parse_int64 s =
+  if decimalb s then (if in_int64b (dec_val s) then Some (dec_val s) else None) else None.
+Proof. exact parse_int64_char. Qed.
+
+Theorem C10_parse_object_id_closed_form : forall s,
+  parse_object_id s =
+  if shapeb 0 s then
+    match denoted 0 s with
+    | Some (k, r, v) => if in_int64b r && in_int64b v then Some (object_id k r v) else None
+    | None => None
+    end
+  else None.
+Proof. exact parse_object_id_char. Qed.
+
+Theorem C10_parse_element_id_closed_form : forall s,
+  parse_element_id s =
+  if shapeb 1 s then
+    match denoted 1 s with
+    | Some (k, r, v) => if in_int64b r && in_int64b v then Some (element_id k r v) else None
+    | None => None
+    end
+  else None.
+Proof. exact parse_element_id_char. Qed.
+
+Theorem C10_parse_feature_id_closed_form : forall s,
+  parse_feature_id s =
+  if shapeb 2 s then
+    match denoted 2 s with
+    | Some (k, r, v) => if in_int64b r then Some (feature_id k r) else None
+    | None => None
+    end
+  else None.
+Proof. exact parse_feature_id_char. Qed.
+
+(* completeness in the domain of the property: shape + numbers in range => the packed id *)
+Theorem C10_parse_object_id_complete : forall s k r v,
+  shapeb 0 s = true -> denoted 0 s = Some (k, r, v) -> in_range r v ->
+  parse_object_id s = Some (pack k (norm_r k r) (norm_v k v)).
+Proof. exact parse_object_id_complete. Qed.
+
+Theorem C10_parse_element_id_complete : forall s k r v,
+  shapeb 1 s = true -> denoted 1 s = Some (k, r, v) -> in_range r v ->
+  is_element k = true /\ parse_element_id s = Some (pack k r v).
+Proof. exact parse_element_id_complete. Qed.
+
+Theorem C10_parse_feature_id_complete : forall s k r v,
+  shapeb 2 s = true -> denoted 2 s = Some (k, r, v) -> 0 <= r < two40 ->
+  is_element k = true /\ parse_feature_id s = Some (pack k r 0).
+Proof. exact parse_feature_id_complete. Qed.
+
+Example C10_conv_witness :
+  conv_feature KNode (feature_id KNode 1099511627775) = Some 1099511627775 /\
+  conv_feature KNode (feature_id KRelation 5) = None /\
+  conv_element KWay (element_id KRelation 5 3) = None /\
+  conv_element KRelation (element_id KRelation 5 3) = Some 5.
+Proof. vm_compute. repeat split. Qed.
+Example C10_counts_witness :
+  element_ids_counts (map pack3 [(KNode, 1, 1); (KChangeset, 5, 0); (KWay, 2, 7); (KNode, 3, 0)]) = (2, 1, 0).
+Proof. vm_compute. reflexivity. Qed.
+Example C10_member_witness :
+  member_element_id "way" 77 3 = Some (pack KWay 77 3) /\ member_feature_id "changeset" 5 = None.
+Proof. vm_compute. split; reflexivity. Qed.
+Example C10_parse_complete_witness :
+  shapeb 1 "way/+0077:65535" = true /\ denoted 1 "way/+0077:65535" = Some (KWay, 77, 65535) /\
+  parse_element_id "way/+0077:65535" = Some (pack KWay 77 65535) /\
+  shapeb 2 "node/0x10" = false /\ parse_feature_id "node/0x10" = None /\
+  shapeb 0 "bounds/5:7" = true /\ parse_object_id "bounds/5:7" = Some (pack KBounds 0 0).
+Proof. vm_compute. repeat split. Qed.
 
 (* non-vacuity: hypotheses are satisfiable by non-trivial values, and the statements compute *)
 Example C10_in_range_witness : in_range 1099511627775 65535 /\ in_range3 (KRelation, 1099511627775, 65535).
@@ -144,3 +324,52 @@ Example C10_reject_witness :
   parse_object_id "node/1/2" = None /\ parse_object_id "nodes/1" = None /\
   parse_element_id "changeset/1" = None /\ parse_object_id "node/1:2:3" = None.
 Proof. repeat split; vm_compute; reflexivity. Qed.
+
+(* every theorem of this file, closed under the global context (no axioms) *)
+Definition C10_all_theorems :=
+  (C10_object_id_layout,
+   C10_element_id_layout,
+   C10_feature_id_layout,
+   C10_no_wrap,
+   C10_decode_object,
+   C10_decode_element,
+   C10_kind_names_distinct,
+   C10_injective,
+   C10_order,
+   C10_sorted_is_lex_sorted,
+   C10_sort_result_unique,
+   C10_parse_object_string,
+   C10_parse_element_string,
+   C10_parse_feature_string,
+   C10_parse_object_rejects,
+   C10_parse_element_rejects,
+   C10_parse_feature_rejects,
+   C10_conv_feature,
+   C10_conv_element,
+   C10_conv_of_constructors,
+   C10_old_subset_guard_refuted,
+   C10_type_objectID,
+   C10_type_featureID,
+   C10_kind_of_name,
+   C10_way_node_ids,
+   C10_member_ids,
+   C10_member_ids_panic,
+   C10_element_ids_counts,
+   C10_feature_ids_counts,
+   C10_counts_total,
+   C10_elements_id_lists,
+   C10_objects_id_list,
+   C10_any_ref_reads_back_mod_2_40,
+   C10_any_ref_clobbers_type_bits,
+   C10_any_ref_sign,
+   C10_any_version_reads_back_mod_2_16,
+   C10_negative_ref,
+   C10_large_refs_collide,
+   C10_parse_int64_complete,
+   C10_parse_object_id_closed_form,
+   C10_parse_element_id_closed_form,
+   C10_parse_feature_id_closed_form,
+   C10_parse_object_id_complete,
+   C10_parse_element_id_complete,
+   C10_parse_feature_id_complete).
+Print Assumptions C10_all_theorems.
